@@ -47,7 +47,11 @@ def criteria_giles(alpha: float, ml: np.array, rmse: float) -> bool:
     :param rmse: root-mean square error
     :return: true if the convergence criteria has been met
     """
-    rem = max(ml[-1], ml[-2] / 2**alpha, ml[-3] / 2 ** (2 * alpha)) / (2**alpha - 1)
+    # extrapolate from the last three corrections, or from those available when there are fewer levels
+    last_corrections = ml[-1:-4:-1]
+    rem = max(m / 2 ** (k * alpha) for k, m in enumerate(last_corrections)) / (
+        2**alpha - 1
+    )
     return rem <= rmse / np.sqrt(2)
 
 
